@@ -36,7 +36,9 @@ def make_table(rng, n, *, weights=True, redshifts=True, patch=None, degrees=True
     out = {}
     for k, v in cols.items():
         if k == "patch":
-            out[k] = v.astype("i8" if dtype in ("f8", "i8") else "i4")
+            out[k] = v.astype({"f8": "i8", "i8": "i8", "u2": "u2", "u4": "u4"}.get(dtype, "i4"))
+        elif dtype in ("u2", "u4") and k == "w":
+            out[k] = (np.arange(len(v)) + 1).astype(dtype)  # unique whole-number weights in an unsigned column
         elif dtype in ("i8", "i4") and k in ("w", "z"):
             out[k] = v  # integer dtypes apply to the patch column only
         else:
@@ -56,7 +58,8 @@ def write_source(kind, path, cols, *, row_group_size=None):
         from astropy.io import fits
 
         hdu = fits.BinTableHDU.from_columns([fits.Column(name=k, array=v, format={
-            "f8": "D", "f4": "E", "i8": "K", "i4": "J"}[v.dtype.newbyteorder("=").str[1:]]) for k, v in cols.items()])
+            "f8": "D", "f4": "E", "i8": "K", "i4": "J", "u2": "I", "u4": "J"}[v.dtype.newbyteorder("=").str[1:]],
+            **({"bzero": 2 ** (8 * v.dtype.itemsize - 1)} if v.dtype.kind == "u" else {})) for k, v in cols.items()])
         hdu.writeto(path, overwrite=True)
     elif kind == "parquet":
         import pyarrow as pa
@@ -129,6 +132,16 @@ class _ColumnProxy:
             self._log.add(op="whole", col=self._name, key=repr(key), n=self._n)
         return self._col[key]
 
+    def __array__(self, dtype=None, copy=None):
+        # numpy converting the column object = the whole column is read
+        self._log.add(op="whole", col=self._name, key="__array__", n=self._n)
+        arr = np.asarray(self._col[:])
+        return arr if dtype is None else arr.astype(dtype)
+
+    def __iter__(self):
+        self._log.add(op="whole", col=self._name, key="__iter__", n=self._n)
+        return iter(self._col[:])
+
     def __getattr__(self, name):
         if name in ("shape", "dtype", "ndim"):
             return getattr(self._col, name)
@@ -185,6 +198,64 @@ class ParquetProxy:
             return getattr(self._pf, name)
         self._log.add(op="attr", key=name)
         return getattr(self._pf, name)
+
+
+class instrumented_opens:
+    """Context manager: every file the readers open (h5py.File, fits.open, parquet.ParquetFile inside
+    yaw.catalog.readers) is wrapped in a recording proxy from the moment it is opened, so requests made
+    while the reader is constructed are logged too."""
+
+    def __init__(self, log: RequestLog):
+        self.log = log
+
+    def __enter__(self):
+        from yaw.catalog import readers
+
+        self._readers = readers
+        self._saved = (readers.h5py, readers.fits, readers.parquet)
+        log = self.log
+
+        class H5:
+            @staticmethod
+            def File(path, *a, **kw):
+                f = self._saved[0].File(path, *a, **kw)
+                n = max((len(f[k]) for k in f.keys()), default=0)
+                return TableProxy(f, log, n)
+
+        class Fits:
+            @staticmethod
+            def open(path, *a, **kw):
+                hdul = self._saved[1].open(path, *a, **kw)
+
+                class HDUProxy:
+                    def __init__(self_, hdu):
+                        self_._hdu = hdu
+
+                    @property
+                    def data(self_):
+                        d = self_._hdu.data
+                        return TableProxy(d, log, len(d))
+
+                class ListProxy:
+                    def __getitem__(self_, i):
+                        return HDUProxy(hdul[i])
+
+                    def close(self_):
+                        return hdul.close()
+
+                return ListProxy()
+
+        class Pq:
+            @staticmethod
+            def ParquetFile(path, *a, **kw):
+                return ParquetProxy(self._saved[2].ParquetFile(path, *a, **kw), log)
+
+        readers.h5py, readers.fits, readers.parquet = H5, Fits, Pq
+        return self
+
+    def __exit__(self, *a):
+        self._readers.h5py, self._readers.fits, self._readers.parquet = self._saved
+        return False
 
 
 def instrument_reader(reader, log: RequestLog):
